@@ -422,6 +422,15 @@ class Gen:
         if not e:
             return None
         ref, n = e
+        if self.rng.random() < 0.35:
+            cands = self.node_ifaces()
+            self.rng.shuffle(cands)
+            for i in cands[:6]:
+                nm = self.same_node_other_scope_name(i)
+                if nm:
+                    if self.rng.random() < 0.25:
+                        return ['set_prop', ['iface', i], self.rng.choice(['name', 'names']), nm]
+                    return ['rename', ['iface', i], nm]
         if 'rename_dup' not in self.avoid and self.rng.random() < 0.2:
             # prefer a node when there is a facility (Topology.nodes hides facilities, the scope does not)
             facs = [x for x in self.g.nodes if x[1] == O.NODE and x[2] == 'Facility']
@@ -436,13 +445,6 @@ class Gen:
                 if self.rng.random() < 0.4:
                     return ['set_prop', [kind, x[0]], self.rng.choice(['name', 'names']), nm]
                 return ['rename', [kind, x[0]], nm]
-        if self.rng.random() < 0.3:
-            cands = self.node_ifaces()
-            self.rng.shuffle(cands)
-            for i in cands[:6]:
-                nm = self.same_node_other_scope_name(i)
-                if nm:
-                    return ['rename', ['iface', i], nm]
         if 'rename_dup' in self.avoid:
             new = self.fresh('r')
             if self.bad():
